@@ -213,6 +213,8 @@ func checkC07(P *Prog, r *Result) {
 		}
 	}
 	r.floor("C07/reinit", 30)
+	P.checkPooledSliceHeader(r, "C07/pooled-slice-header")
+	P.checkNoGlobalPooledObject(r)
 
 	// ---- release ----
 	P.checkRelease(r)
@@ -797,4 +799,83 @@ func (P *Prog) checkReleaseMultiplicity(r *Result, rule string) {
 	r.Extra["issue_map_duplicate_keys"] = sortedKeys(dupKeys)
 	r.floor(rule, 1)
 	_ = n
+}
+
+// checkPooledSliceHeader: the acquisition function of a pooled slice re-slices
+// it to a constant length, which presupposes the capacity it was created with.
+// Every store to a *PathBuilder must therefore store a value derived from the
+// same object by append or re-slicing (capacity never shrinks); storing nil or
+// an unrelated slice breaks the next acquisition ("slice bounds out of range").
+func (P *Prog) checkPooledSliceHeader(r *Result, rule string) {
+	R := P.roles
+	n := 0
+	for _, fn := range P.Funcs {
+		eachInstr(fn, func(_ *ssa.BasicBlock, _ int, in ssa.Instruction) {
+			st, ok := in.(*ssa.Store)
+			if !ok || !P.isPtrTo(st.Addr.Type(), R.PathB) {
+				return
+			}
+			if _, isAlloc := st.Addr.(*ssa.Alloc); isAlloc {
+				return // the pool's New function initialising a fresh builder
+			}
+			n++
+			c := fmt.Sprintf("%s#store-PathBuilder@%d", fname(fn), n)
+			obj := cv(st.Addr)
+			selfDerived := func(v ssa.Value) bool {
+				for d := 0; d < 6; d++ {
+					switch x := v.(type) {
+					case *ssa.Slice:
+						v = x.X
+					case *ssa.ChangeType:
+						v = x.X
+					case *ssa.Call:
+						if callOf(x).builtin == "append" {
+							v = x.Call.Args[0]
+						} else {
+							return false
+						}
+					case *ssa.UnOp:
+						return x.Op == token.MUL && cv(x.X) == obj
+					default:
+						return false
+					}
+				}
+				return false
+			}
+			if selfDerived(st.Val) {
+				r.ok(rule, c, P.ipos(in), "stores an append / re-slice of the same builder: capacity is preserved")
+			} else {
+				r.bad(rule, c, P.ipos(in), "the pooled path builder's slice header is overwritten with a value not derived from itself ("+shortName(st.Val.String())+"): the capacity NewPathBuilder's re-slice relies on is lost, the next acquisition panics or sees foreign segments")
+			}
+		})
+	}
+	r.floor(rule, 3)
+}
+
+// checkNoGlobalPooledObject: objects of the per-call pooled types must come
+// from the pools or be call-local. A package-level *ZogIssue / *SchemaCtx ...
+// handed to an execution is shared by every execution (and is later put into
+// the pool by Collect).
+func (P *Prog) checkNoGlobalPooledObject(r *Result) {
+	found := 0
+	for _, sp := range P.SSAPkgs {
+		for _, m := range sp.Members {
+			g, ok := m.(*ssa.Global)
+			if !ok {
+				continue
+			}
+			elem := g.Type().(*types.Pointer).Elem()
+			if _, isPtr := elem.Underlying().(*types.Pointer); !isPtr {
+				continue
+			}
+			if !P.isPooledType(elem) {
+				continue
+			}
+			found++
+			r.bad("C07/no-global-pooled-object", shortName(g.String()), P.pos(g.Pos()), "a package-level variable holds an object of a per-call pooled type ("+typeStr(elem)+"): every execution that receives it shares (and overwrites) the same object")
+		}
+	}
+	if found == 0 {
+		r.ok("C07/no-global-pooled-object", "module", "-", "no package-level variable of a pooled pointer type")
+	}
 }
